@@ -232,6 +232,25 @@ def r4_cursor(r, facts):
         cut = [x for x in subexprs(recv) if x[0] == 'call' and x[1] in SUBSLICE]
         r.inst('padding search over %s' % (str(recv)[:120],), f.where(p))
         r.require(bool(whole) and not cut, 'poll_sys/padding-partial', 'the last-non-NUL search does not cover the whole name field (%s): a name followed by more padding than the searched part keeps NUL bytes (the kernel pads with 1 to 16 NULs)' % (cut[0][1] if cut else 'not the record bytes'), f.where(p))
+        # .. for the last byte that is *not* NUL
+        if len(t['args']) == 2 and 'l' in t['args'][1]:
+            for d in f.defs.get(t['args'][1]['l'], []):
+                st = f.at(d[0]) if not f.is_term(d[0]) else None
+                if st and st.get('k') == 'assign' and st['rv']['k'] == 'agg' and st['rv'].get('ak') == 'closure':
+                    cg = facts.fn_opt(st['rv'].get('closure') or '')
+                    if cg is None:
+                        continue
+                    ce = ExprBuilder(cg, multi='phi')
+                    for l2, s2 in cg.assigns():
+                        if s2['lhs']['l'] == 0 and not s2['lhs']['p']:
+                            pe = ce.rvalue(s2['rv'])
+                            flip = False
+                            while pe[0] == 'un' and pe[1] == 'Not':
+                                pe, flip = pe[2], not flip
+                            if pe[0] == 'bin' and pe[1] in ('Eq', 'Ne') and any(y[0] == 'const' and y[1] == 0 for y in (pe[2], pe[3])):
+                                non_nul = (pe[1] == 'Ne') != flip
+                                r.inst('padding search predicate: byte %s 0' % ('!=' if non_nul else '=='), cg.where(l2))
+                                r.require(non_nul, 'poll_sys/padding-predicate', 'the padding search looks for the last NUL byte instead of the last byte that is not NUL: names keep their padding / are cut at the wrong place', cg.where(l2))
         for w in whole:
             r.require(fam.last_field(w[2][1]) == 'len' or 'len' in str(w[2][1]), 'poll_sys/padding-partial', 'the name slice searched for padding is not event.len bytes long: %s' % (w[2][1],), f.where(p))
     for loc in evref:
@@ -241,6 +260,12 @@ def r4_cursor(r, facts):
         ln = ebp.operand(t['args'][1])
         from_scan = scan is not None and any(x[0] == 'local' and x[1] == scan['counter'] for x in subexprs(ExprBuilder(f, multi='leaf').operand(t['args'][1]))) or \
             (scan is not None and scan['counter'] in _feeds(f, t['args'][1]))
+        # the trimmed length is the index of the last non-NUL byte plus one
+        for x in subexprs(ln):
+            if x[0] == 'bin' and x[1].startswith('Add') and any(y[0] == 'call' and y[1].endswith('rposition') for z in (x[2], x[3]) for y in subexprs(z)):
+                k = [c15.strip(z) for z in (x[2], x[3]) if c15.strip(z)[0] == 'const']
+                r.inst('trimmed length = index of the last non-NUL byte + %s' % (k[0][1] if k else '?'), f.where(loc))
+                r.require(bool(k) and k[0][1] == 1, 'poll_sys/name-length-off', 'the trimmed name length is the index of the last non-NUL byte plus %s, expected plus 1' % (k[0][1] if k else x,), f.where(loc))
         r.require(any(x[0] == 'call' and x[1].endswith('rposition') for x in subexprs(ln)) or from_scan, 'poll_sys/name-length', 'the event\'s name length is not the trimmed length: %s' % (str(ln)[:200],), f.where(loc))
     r.floor(2)
 
@@ -300,6 +325,31 @@ def backward_nul_scan(f):
             init_locs = [d[0] for d in f.defs.get(counter, []) if not f.blocks[d[0][0]]['cleanup'] and ebp.definition(d, 0, ())[0] == 'call']
             return {'counter': counter, 'test': f.term_loc(b), 'init': init_locs[0] if init_locs else f.term_loc(b)}
     return None
+
+
+def closure_zero_tests(f, facts, t):
+    """for a call `it.position(|b| ..)` / `rposition` / `take_while` .. whose last argument is a closure of f: [(where, True if the
+    closure is true exactly for a zero byte, False if exactly for a non-zero byte)] — empty when the predicate has another form"""
+    out = []
+    if not t['args'] or 'l' not in t['args'][-1]:
+        return out
+    for d in f.defs.get(t['args'][-1]['l'], []):
+        st = f.at(d[0]) if not f.is_term(d[0]) else None
+        if st and st.get('k') == 'assign' and st['rv']['k'] == 'agg' and st['rv'].get('ak') == 'closure':
+            cg = facts.fn_opt(st['rv'].get('closure') or '')
+            if cg is None:
+                continue
+            ce = ExprBuilder(cg, multi='phi')
+            for l2, s2 in cg.assigns():
+                if s2['lhs']['l'] == 0 and not s2['lhs']['p']:
+                    pe = ce.rvalue(s2['rv'])
+                    flip = False
+                    while pe[0] == 'un' and pe[1] == 'Not':
+                        pe, flip = pe[2], not flip
+                    if pe[0] == 'bin' and pe[1] in ('Eq', 'Ne') and any(y[0] == 'const' and y[1] == 0 for y in (pe[2], pe[3])):
+                        out.append((cg.where(l2), (pe[1] == 'Eq') != flip))
+    return out
+
 
 
 def r5_watch_paths(r, facts):
